@@ -10,6 +10,12 @@ VARIANTS = ["base", "permute", "move", "swapfiles", "blank", "gofmt", "rename", 
 
 
 def layout_of(v, i):
+    d = _layout_of(v, i)
+    d["pkg_ignores"] = True
+    return d
+
+
+def _layout_of(v, i):
     return {"base": {}, "permute": {"permute": True}, "move": {"move": True}, "blank": {"blank": True}, "gofmt": {},
             "rename": {"rename": True}, "swapfiles": {"swapfiles": True},
             "all": {"permute": True, "move": True, "blank": True, "rename": True, "swapfiles": True}}[v]
